@@ -22,7 +22,7 @@ Inductive regop :=
 | CreateUpstreamMessage (m : upm) | ListUpstreamMessages (e : N) (limit : Z)
 | CreateDownstreamMessage (m : downm) | DeleteDownstreamMessage (e : N) (created : Z) | ListDownstreamMessages (e : N)
 | Reopen
-| AdvanceFCntUp (e accepted newfup : N) (kw : bool) | NextFCntDn (e : N)
+| AdvanceFCntUp (e : N) (key : list N) (accepted newfup : N) (kw : bool) | NextFCntDn (e : N) (key : list N)
 | SetMessageSentTime (e : N) (created sent : Z) (fc : N) | UpdateMessageAckTime (e : N) (fc : N) (ackt : Z)
 | ResetActiveAcks (e : N) | GetNextUnsentMessage (e : N).
 
@@ -66,8 +66,8 @@ Definition regop_ok (o : regop) : bool :=
   | ListUpstreamMessages e _ => eui_ok e
   | CreateDownstreamMessage m => down_ok m
   | DeleteDownstreamMessage e c => eui_ok e && i64_ok c
-  | AdvanceFCntUp e a nf _ => eui_ok e && (a <? 65536) && (nf <? 65536)
-  | NextFCntDn e => eui_ok e
+  | AdvanceFCntUp e key a nf _ => eui_ok e && key_ok key && (a <? 65536) && (nf <? 65536)
+  | NextFCntDn e key => eui_ok e && key_ok key
   | SetMessageSentTime e c s fc => eui_ok e && i64_ok c && i64_ok s && (fc <? 65536)
   | UpdateMessageAckTime e fc a => eui_ok e && (fc <? 65536) && i64_ok a
   | ResetActiveAcks e | GetNextUnsentMessage e => eui_ok e
